@@ -526,7 +526,7 @@ theorem decodeShort_spec (n first : Nat) (t : List Nat) :
         unfold validateDcidLen maxDcidLen; rw [e4, if_pos (by omega)]
       have e6 : finishShort (first :: t) (t.drop n) = .ok ((1 + n, t.length + 1), []) := by
         unfold finishShort
-        simp only [List.length_cons, List.length_drop, Nat.lt_irrefl, if_false, List.drop_length]
+        simp only [List.length_cons, List.length_drop, Nat.lt_irrefl, if_false]
         rw [if_neg (by omega)]
         have : List.drop (t.length + 1) (first :: t) = [] := by simp
         rw [this]
@@ -981,5 +981,207 @@ theorem decodeInitial_error_eof {version : Nat} {b : List Nat} {first v0 v1 v2 v
             obtain ⟨⟨off, len⟩, next⟩ := x5
             rw [h5] at h
             simp at h
+
+/-! ### encoder side -/
+
+open Quic.Codec.VarInt in
+/-- `VarInt::encode_updated`: the replacement value in the placeholder's width -/
+theorem encodeUpdated_eq (mx v : Nat) (hv : v ≤ mx) (hm : mx ≤ maxValue) :
+    encodeUpdated mx v =
+      if mx ≤ 63 then [v]
+      else if mx ≤ 16383 then [64 + v / 256, v % 256]
+      else if mx ≤ 1073741823 then [128 + v / 2 ^ 24, v / 2 ^ 16 % 256, v / 2 ^ 8 % 256, v % 256]
+      else [192 + v / 2 ^ 56, v / 2 ^ 48 % 256, v / 2 ^ 40 % 256, v / 2 ^ 32 % 256,
+            v / 2 ^ 24 % 256, v / 2 ^ 16 % 256, v / 2 ^ 8 % 256, v % 256] := by
+  unfold encodeUpdated maxValue at *
+  rw [Quic.Proofs.C05.lookup_cases]
+  repeat' split
+  all_goals simp [beBytes]
+  all_goals omega
+
+open Quic.Codec.VarInt Quic.Proofs.C05 in
+/-- the (possibly non-minimal) Length field decodes back to the value written into it -/
+theorem encodeUpdated_roundtrip (mx v : Nat) (rest : List Nat) (hv : v ≤ mx) (hm : mx ≤ maxValue) :
+    decode (encodeUpdated mx v ++ rest) = some (v, rest) := by
+  rw [encodeUpdated_eq mx v hv hm]
+  unfold maxValue at hm
+  repeat' split
+  · rw [List.cons_append, List.nil_append, decode_tag0 _ _ (by omega)]
+    simp; omega
+  · simp only [List.cons_append, List.nil_append]
+    rw [decode_tag1 _ _ _ (by omega)]
+    simp; omega
+  · simp only [List.cons_append, List.nil_append]
+    rw [decode_tag2 _ _ _ _ _ (by omega)]
+    simp; omega
+  · simp only [List.cons_append, List.nil_append]
+    rw [decode_tag3 _ _ _ _ _ _ _ _ _ (by omega)]
+    simp; omega
+
+theorem checkedRangeU8_append (c r : List Nat) : checkedRangeU8 (c.length :: (c ++ r)) = .ok (c, r) := by
+  simp [checkedRangeU8, skipIntoRange]
+
+theorem checkedRangeVar_append (c r : List Nat) (hc : c.length ≤ Codec.VarInt.maxValue) :
+    checkedRangeVar (Codec.VarInt.encode c.length ++ (c ++ r)) = .ok (c, r) := by
+  unfold checkedRangeVar
+  rw [Quic.Proofs.C05.varint_roundtrip _ _ hc]
+  simp [skipIntoRange]
+
+theorem be32_eq (v : Nat) : be32 v = [v / 16777216 % 256, v / 65536 % 256, v / 256 % 256, v % 256] := by
+  simp [be32, beBytes]
+
+theorem be32_val (v : Nat) (hv : v < 4294967296) :
+    ((v / 16777216 % 256 * 256 + v / 65536 % 256) * 256 + v / 256 % 256) * 256 + v % 256 = v := by omega
+
+/-- `finish_long` when the Length field announces exactly the bytes that follow it -/
+theorem finishLong_exact (b lenField body : List Nat)
+    (h : Codec.VarInt.decode (lenField ++ body) = some (body.length, body)) :
+    finishLong b (lenField ++ body) = .ok ((b.length - body.length, b.length), []) := by
+  unfold finishLong
+  rw [h]
+  simp only [Nat.lt_irrefl, if_false, List.drop_length, List.length_nil, Nat.sub_zero]
+  rw [if_neg (by omega)]
+
+/-! ### the canonical byte layout and what the decoders do on it -/
+
+open Quic.Codec
+
+/-- the canonical long-header byte layout -/
+def longLayout (first v : Nat) (d s tail : List Nat) : List Nat :=
+  first :: (v / 16777216 % 256) :: (v / 65536 % 256) :: (v / 256 % 256) :: (v % 256) ::
+    (d.length :: (d ++ (s.length :: (s ++ tail))))
+
+theorem decodeInitial_layout (ver first v : Nat) (d s tok lenField body : List Nat)
+    (htok : tok.length ≤ Codec.VarInt.maxValue)
+    (h : Codec.VarInt.decode (lenField ++ body) = some (body.length, body)) :
+    decodeInitial ver (longLayout first v d s (Codec.VarInt.encode tok.length ++ (tok ++ (lenField ++ body)))) =
+      .ok (.initial ver d s tok
+        ((longLayout first v d s (Codec.VarInt.encode tok.length ++ (tok ++ (lenField ++ body)))).length - body.length)
+        (longLayout first v d s (Codec.VarInt.encode tok.length ++ (tok ++ (lenField ++ body)))).length, []) := by
+  unfold decodeInitial
+  rw [show newLong (longLayout first v d s (Codec.VarInt.encode tok.length ++ (tok ++ (lenField ++ body)))) =
+    .ok (d.length :: (d ++ (s.length :: (s ++ (Codec.VarInt.encode tok.length ++ (tok ++ (lenField ++ body))))))) from
+      newLong_cons5 _ _ _ _ _ _]
+  simp only []
+  rw [checkedRangeU8_append]
+  simp only []
+  rw [checkedRangeU8_append]
+  simp only []
+  rw [checkedRangeVar_append _ _ htok]
+  simp only []
+  rw [finishLong_exact _ _ _ h]
+
+theorem decodeDcid_append (d r : List Nat) (hd : d.length ≤ 20) : decodeDcid (d.length :: (d ++ r)) = .ok (d, r) := by
+  unfold decodeDcid
+  rw [checkedRangeU8_append]
+  simp [validateDcidLen, maxDcidLen, hd]
+
+theorem decodeScid_append (d r : List Nat) (hd : d.length ≤ 20) : decodeScid (d.length :: (d ++ r)) = .ok (d, r) := by
+  unfold decodeScid
+  rw [checkedRangeU8_append]
+  simp [validateScidLen, maxScidLen, hd]
+
+theorem decodeLongPlain_layout (mk : List Nat → List Nat → Nat → Nat → Packet) (first v : Nat)
+    (d s lenField body : List Nat) (hd : d.length ≤ 20) (hs : s.length ≤ 20)
+    (h : Codec.VarInt.decode (lenField ++ body) = some (body.length, body)) :
+    decodeLongPlain mk (longLayout first v d s (lenField ++ body)) =
+      .ok (mk d s ((longLayout first v d s (lenField ++ body)).length - body.length)
+        (longLayout first v d s (lenField ++ body)).length, []) := by
+  unfold decodeLongPlain
+  rw [show newLong (longLayout first v d s (lenField ++ body)) =
+    .ok (d.length :: (d ++ (s.length :: (s ++ (lenField ++ body))))) from newLong_cons5 _ _ _ _ _ _]
+  simp only []
+  rw [decodeDcid_append _ _ hd]
+  simp only []
+  rw [decodeScid_append _ _ hs]
+  simp only []
+  rw [finishLong_exact _ _ _ h]
+
+theorem decodePacket_layout (n first v : Nat) (d s tail : List Nat) (hf : first < 256)
+    (hform : first / 128 % 2 = 1) (hv : v < 4294967296) :
+    decodePacket n (longLayout first v d s tail) =
+      if v = 0 then decodeVn first (longLayout first v d s tail)
+      else if first / 16 ≤ 11 then .error .invalidVn
+      else if first / 16 = 12 then decodeInitial v (longLayout first v d s tail)
+      else if first / 16 = 13 then decodeZeroRtt v (longLayout first v d s tail)
+      else if first / 16 = 14 then decodeHandshake v (longLayout first v d s tail)
+      else decodeRetry first v (longLayout first v d s tail) := by
+  unfold longLayout
+  rw [decodePacket_long n first _ _ _ _ _ hf hform, be32_val v hv]
+
+theorem beBytes_length (n v : Nat) : (beBytes n v).length = n := by
+  induction n with
+  | zero => rfl
+  | succ n ih => simp [beBytes, ih]
+
+theorem encodeTruncated_length (t : PacketNumber.Truncated) :
+    (PacketNumber.encodeTruncated t).length = PacketNumber.bytesize t.len := by
+  simp [PacketNumber.encodeTruncated, beBytes_length]
+
+theorem truncate_len_le (pn la : Nat) (t : PacketNumber.Truncated) (h : PacketNumber.truncate pn la = some t) :
+    t.len ≤ 3 := by
+  unfold PacketNumber.truncate at h
+  split at h
+  · simp at h
+  · rename_i len _
+    simp only [Option.some.injEq] at h
+    rw [← h]
+    unfold PacketNumber.truncatePacketNumber
+    split <;> simp
+
+theorem enc_tail_inv {α : Type} (pl M est cap : Nat) (x bytes : α)
+    (h : (if (if pl < M then 0 else pl) = 0 then (Except.error EncErr.empty : Except EncErr α)
+          else if est + (if pl < M then 0 else pl) > cap then .error .space else .ok x) = .ok bytes) :
+    0 < pl ∧ est + pl ≤ cap ∧ x = bytes := by
+  by_cases h1 : pl < M
+  · rw [if_pos h1] at h; simp at h
+  · rw [if_neg h1] at h
+    by_cases h2 : pl = 0
+    · rw [if_pos h2] at h; simp at h
+    · rw [if_neg h2] at h
+      by_cases h3 : est + pl > cap
+      · rw [if_pos h3] at h; simp at h
+      · rw [if_neg h3] at h
+        simp only [Except.ok.injEq] at h
+        exact ⟨by omega, by omega, h⟩
+
+/-- what a successful `encode_packet` produced -/
+theorem encodePacket_ok_inv {h : Hdr} {cap pn la : Nat} {payload bytes : List Nat}
+    (he : encodePacket h cap 0 0 pn la payload = .ok bytes) :
+    ∃ t hdr, PacketNumber.truncate pn la = some t ∧ encodeHeader h t.len = some hdr ∧ 0 < payload.length ∧
+      hdr.length + (if h.isLong then VarInt.encodingSize (placeholderValue (cap - hdr.length)) else 0)
+        + PacketNumber.bytesize t.len + payload.length ≤ cap ∧
+      bytes = hdr ++ ((if h.isLong then
+          encodeUpdated (placeholderValue (cap - hdr.length)) (PacketNumber.bytesize t.len + payload.length) else [])
+        ++ (PacketNumber.encodeTruncated t ++ payload)) := by
+  unfold encodePacket at he
+  cases ht : PacketNumber.truncate pn la with
+  | none => rw [ht] at he; simp at he
+  | some t =>
+    rw [ht] at he
+    simp only [] at he
+    cases hh : encodeHeader h t.len with
+    | none => rw [hh] at he; simp at he
+    | some hdr =>
+      rw [hh] at he
+      simp only [] at he
+      obtain ⟨hp0, hfit, hb⟩ := enc_tail_inv _ _ _ _ _ _ he
+      refine ⟨t, hdr, rfl, hh, hp0, by omega, ?_⟩
+      rw [← hb]
+      simp only [Nat.add_zero, List.replicate_zero, List.append_nil, List.append_assoc]
+
+theorem encodeUpdated_length (mx v : Nat) : (encodeUpdated mx v).length = VarInt.encodingSize mx := by
+  unfold encodeUpdated VarInt.encodingSize
+  rw [Quic.Proofs.C05.lookup_cases]
+  repeat' split
+  all_goals simp [beBytes_length]
+
+theorem drop_suffix_len (pre body : List Nat) : (pre ++ body).drop ((pre ++ body).length - body.length) = body := by
+  rw [List.length_append, Nat.add_sub_cancel, List.drop_left]
+
+theorem cid?_append (c r : List Nat) : Rfc.PacketHeader.cid? (c.length :: (c ++ r)) = some (c, r) := by
+  simp [Rfc.PacketHeader.cid?, Rfc.PacketHeader.u8?, Rfc.PacketHeader.take?]
+
+theorem or_c0 : ∀ t, t < 256 → (t ||| 192) = 192 + t % 64 := by decide +kernel
 
 end Quic.Proofs.PacketHeader
